@@ -243,22 +243,38 @@ func runC29(c *Ctx) {
 	if cv := c.MustFunc(pkgLite + ":ClearVirtualHost"); cv != nil {
 		var seps []string
 		trimDot := false
-		eachInstr(cv, func(in ssa.Instruction) {
-			cc := callOf(in)
-			if cc == nil {
-				return
-			}
-			switch calleeName(cc) {
-			case "strings.Split", "strings.SplitN", "strings.Cut":
-				if s, ok := constString(cc.Args[1]); ok {
-					seps = append(seps, s)
+		// the returned string as a chain of cuts and trims of the parameter, whatever the spelling
+		for i, r := range successReturns(cv) {
+			src, steps := strChain(retVal(r, 0), 2)
+			var here []string
+			dot := false
+			if strip(src) == ssa.Value(cv.Params[0]) {
+				for _, st := range steps {
+					switch st.Kind {
+					case "cut":
+						here = append(here, st.Arg)
+					case "trim":
+						if st.Arg == "." {
+							dot = true
+						}
+					}
 				}
-			case "strings.Trim":
-				if s, ok := constString(cc.Args[1]); ok && s == "." {
-					trimDot = true
+			}
+			if i == 0 {
+				seps, trimDot = here, dot
+				continue
+			}
+			// every return must cut and trim alike: keep what all have
+			var both []string
+			for _, a := range seps {
+				for _, b := range here {
+					if a == b {
+						both = append(both, a)
+					}
 				}
 			}
-		})
+			seps, trimDot = both, trimDot && dot
+		}
 		has := func(x string) bool {
 			for _, s := range seps {
 				if s == x {
